@@ -5,15 +5,25 @@ from common import *
 HARN = os.path.join(VERIF, "harness")
 
 def build(profile):
-    """profile: 'd' or 'r'.  returns (binary path or None, log)"""
+    """profile: 'd' or 'r'.  returns (binary path or None, log).
+    The crate manifest is generated into .cache/hbuild so that the dependency path follows VERIF_REPO
+    (default /repo); sources stay in /verif/harness/src."""
     with locked("harness_" + profile):
+        import shutil
+        bd = os.path.join(CACHE, "hbuild")
+        os.makedirs(bd, exist_ok=True)
+        man = open(os.path.join(HARN, "Cargo.toml")).read()
+        man = man.replace('path = "/repo"', 'path = "%s"' % REPO)
+        man = man.replace("[workspace]", "[[bin]]\nname = \"harness\"\npath = \"%s\"\n\n[workspace]" % os.path.join(HARN, "src", "main.rs"))
+        write_if_changed(os.path.join(bd, "Cargo.toml"), man)
         lock = os.path.join(HARN, "Cargo.lock")
-        if not os.path.exists(lock):
-            import shutil
-            shutil.copy(os.path.join(REPO, "Cargo.lock"), lock)
+        if os.path.exists(lock):
+            write_if_changed(os.path.join(bd, "Cargo.lock"), open(lock).read())
+        os.makedirs(os.path.join(bd, ".cargo"), exist_ok=True)
+        write_if_changed(os.path.join(bd, ".cargo", "config.toml"), "[net]\noffline = true\n")
         cmd = ["cargo", "build", "--offline"] + (["--release"] if profile == "r" else [])
-        rc, out = run(cmd, cwd=HARN, timeout=1200, env={"RUSTFLAGS": "--cfg %s" % GUARD})
-        binp = os.path.join(HARN, "target", "release" if profile == "r" else "debug", "harness")
+        rc, out = run(cmd, cwd=bd, timeout=1200, env={"RUSTFLAGS": "--cfg %s" % GUARD})
+        binp = os.path.join(bd, "target", "release" if profile == "r" else "debug", "harness")
         if rc != 0 or not os.path.exists(binp):
             errs = "\n".join(l for l in out.splitlines() if l.startswith("error") or "-->" in l)[:3000]
             return None, errs or out[-3000:]
